@@ -297,6 +297,10 @@ func (l listEnviron) compare(a, b string) int {
 }
 
 func (l listEnviron) Get(name string) Variable {
+	if strings.Contains(name, "=") {
+		// Pairs are split at their first '=', so no variable name contains one.
+		return Variable{}
+	}
 	eqpos := len(name)
 	endpos := len(name) + 1
 	i, ok := slices.BinarySearchFunc(l.pairs, name, func(pair, name string) int {
